@@ -196,7 +196,9 @@ Definition spec_member (sv : spec_rules) (a : auth_input) : bool :=
       match ai_create a with
       | None => false
       | Some c =>
-          let dom := match m_mapping m with Some md => md | None => ai_sender_domain a end in
+          (* the sender is the sender; only the pseudo-ID version maps it through mxid_mapping *)
+          let dom := match (if sr_pseudo sv then m_mapping m else None) with
+                     | Some md => md | None => ai_sender_domain a end in
           match dom with
           | None => false
           | Some d =>
@@ -274,7 +276,7 @@ Definition spec_power_levels (sv : spec_rules) (a : auth_input) : bool :=
           negb (existsb (fun u => mem_bytes u (c_sender c :: c_additional c)) (map fst (pl_users new)))) (* (b) *)
       && forallb (fun g : pl_content -> Z => changed_ok L (g old) (g new))          (* (d) *)
                  [pl_users_default; pl_events_default; pl_state_default; pl_ban; pl_redact; pl_kick; pl_invite]
-      && forallb (fun ty => changed_ok L (pl_event_level old ty false) (pl_event_level new ty false)) (* (e) *)
+      && forallb (fun ty => changed_ok L (pl_event_entry old ty) (pl_event_entry new ty))   (* (e) *)
                  (map fst (pl_events old) ++ map fst (pl_events new))
       && (negb (sr_notifications sv) ||
           forallb (fun n => changed_ok L (pl_notif_level old n) (pl_notif_level new n))
@@ -297,12 +299,11 @@ Definition spec_redaction (sv : spec_rules) (a : auth_input) : bool :=
                        end in
       if negb old_rules then true
       else
-        (* the redacted event is named by a version-1 event ID; one without a domain is refused *)
-        match ai_redacts_domain a, ai_sender_domain a with
-        | Some rd, Some d =>
-            (pl_redact (ai_pl a) <=? spec_level sv a c (ai_sender a)) || bytes_eqb d rd
-        | _, _ => false
-        end
+        (pl_redact (ai_pl a) <=? spec_level sv a c (ai_sender a))
+        || match ai_redacts_domain a, ai_sender_domain a with
+           | Some rd, Some d => bytes_eqb d rd
+           | _, _ => false
+           end
   | None => false
   end.
 
